@@ -300,19 +300,40 @@ def rule_pointers(ctx) -> None:
     chk, prog = ctx.chk, ctx.prog
     ivt = ctx.own(HS, "IvtHabSegment", "load_from_config")
     csf = ctx.own(HS, "CsfHabSegment", "load_from_config")
-    a = _stmts(ivt, ["image_len", "csf_offset"])
-    b = [("csf_" + s) if s.startswith(("offset =", "offset -=")) else s for s in _stmts(csf, ["image_len", "offset"])]
-    b = [s.replace("cls.align_offset", "CsfHabSegment.align_offset").replace("(offset)", "(csf_offset)").replace("= offset -", "= csf_offset -") for s in b]
-    # accepted refactoring: both sides obtain the offset from one shared helper
-    helper_a = {A.call_name(c) for c in A.calls_in(ivt.node) if "csf" in A.call_name(c).lower() and "offset" in A.call_name(c).lower() and A.call_name(c) != "align_offset"}
-    helper_b = {A.call_name(c) for c in A.calls_in(csf.node) if "csf" in A.call_name(c).lower() and "offset" in A.call_name(c).lower() and A.call_name(c) != "align_offset"}
-    shared = bool(helper_a & helper_b) and not a and not b
-    chk.decide((a == b and len(a) == 3) or shared, "C07.pointers", f"{ivt.qual} csf pointer vs {csf.qual} offset", "the IVT's CSF pointer and the CSF segment's offset are computed by the same three statements",
-               f"IVT: {a}; CSF segment: {b}", "image_len = initial_load_size + len(app_image); align_offset(image_len) - ivt_offset", A.loc(HS, ivt.node))
-    t = norm(ivt.node)
-    ok = "segment.ivt_address = config.options.start_address + config.options.get_ivt_offset()" in t and "segment.bdt_address = segment.ivt_address + segment.size" in t and \
-        "segment.csf_address = segment.ivt_address + csf_offset" in t and "segment.dcd_address = segment.ivt_address + SegIVT2.SIZE + BootImgRT.BDT_SIZE" in t and "segment.csf_address = 0" in t
-    chk.decide(ok, "C07.pointers", ivt.qual, "self = start + IVT offset; boot data right behind the IVT; DCD behind IVT + boot data slot; CSF = self + CSF offset (0 when not authenticated)", t[:300], "", A.loc(HS, ivt.node))
+    # twin computation compared as final symbolic values in the inputs (temporaries, statement splitting and hoisted calls do not
+    # matter): the CSF pointer the IVT stores and the offset the CSF segment places itself at
+    def final_values(fn, var):
+        vals = set()
+        for q in A.spaths(fn.node):
+            v = q.env.get(var)
+            if v is not None and not (isinstance(v, ast.Name) and v.id == var):
+                vals.add(norm(v).replace("cls.align_offset", "CsfHabSegment.align_offset"))
+        return vals
+    a, b = final_values(ivt, "csf_offset"), final_values(csf, "offset")
+    want_v = {"CsfHabSegment.align_offset(config.options.get_initial_load_size() + len(config.app_image)) - config.options.get_ivt_offset()"}
+    chk.decide(a == b == want_v, "C07.pointers", f"{ivt.qual} csf pointer vs {csf.qual} offset", "the IVT's CSF pointer and the CSF segment's offset are the same function of the configuration: align_offset(initial load size + image length) - IVT offset",
+               f"IVT: {sorted(a)}; CSF: {sorted(b)}", f"{sorted(want_v)}", A.loc(HS, ivt.node))
+    # the pointer words stored on every path, in the inputs (attribute stores along the symbolic paths)
+    CSFO = next(iter(want_v))
+    probs = []
+    n_paths = 0
+    for q in A.spaths(ivt.node):
+        if q.end != "return":
+            continue
+        n_paths += 1
+        st_ = {}
+        for s2 in q.sstmts:
+            if isinstance(s2, ast.Assign) and norm(s2.targets[0]).startswith("segment."):
+                st_[norm(s2.targets[0])[len("segment."):]] = norm(s2.value).replace("cls.align_offset", "CsfHabSegment.align_offset")
+        auth = q.assumes("bool(config.options.flags >> 3)", True)
+        exp = {"ivt_address": "config.options.start_address + config.options.get_ivt_offset()", "bdt_address": "segment.ivt_address + segment.size",
+               "csf_address": f"segment.ivt_address + ({CSFO})" if auth else "0"}
+        if q.assumes("config.options.dcd_file_path", True):
+            exp["dcd_address"] = "segment.ivt_address + SegIVT2.SIZE + BootImgRT.BDT_SIZE"
+        for k, v in exp.items():
+            if st_.get(k) != v:
+                probs.append(f"{'authenticated' if auth else 'plain'} image: {k} = {st_.get(k)} (expected {v})")
+    chk.decide(not probs and n_paths >= 2, "C07.pointers", ivt.qual, "self = start + IVT offset; boot data right behind the IVT; DCD behind IVT + boot data slot; CSF = self + CSF offset (0 when not authenticated)", "; ".join(sorted(set(probs))[:3]), "", A.loc(HS, ivt.node))
     # wrapper offsets agree with those pointers
     bd = ctx.own(HS, "BdtHabSegment", "load_from_config")
     chk.decide("offset = IvtHabSegment.OFFSET + SegIVT2.SIZE" in norm(bd.node), "C07.pointers", bd.qual + " offset", "boot data segment sits at IVT offset + IVT size", "", "", A.loc(HS, bd.node))
